@@ -1211,6 +1211,10 @@ class BufferedWriter(IndexWriter):
 
         self._make_ram_index()
         self.bufferedcount = 0
+        # Nesting depth of start_group(): the documents of a group have to end
+        # up in the same segment, so the buffer is not flushed inside a group
+        self._grouping = 0
+        self._flush_wanted = False
 
         # Start timer
         if self.period:
@@ -1261,6 +1265,23 @@ class BufferedWriter(IndexWriter):
         # gets the lock only after the writer has been closed: nothing to do
         with self.lock:
             if not self.writer.is_closed:
+                if self._grouping:
+                    # Flush when the group is complete
+                    self._flush_wanted = True
+                else:
+                    self.commit()
+
+    def start_group(self):
+        with self.lock:
+            self._grouping += 1
+
+    def end_group(self):
+        with self.lock:
+            if not self._grouping:
+                raise Exception("Unbalanced end_group")
+            self._grouping -= 1
+            if not self._grouping and (self._flush_wanted
+                                       or self.bufferedcount >= self.limit):
                 self.commit()
 
     def commit(self, restart=True):
@@ -1278,6 +1299,7 @@ class BufferedWriter(IndexWriter):
                 self.writer.add_reader(ramreader)
             self.writer.commit(**self.commitargs)
             self.bufferedcount = 0
+            self._flush_wanted = False
 
             if restart:
                 self.writer = self.index.writer(**self.writerargs)
@@ -1297,7 +1319,7 @@ class BufferedWriter(IndexWriter):
                 w.add_document(**fields)
 
             self.bufferedcount += 1
-            if self.bufferedcount >= self.limit:
+            if self.bufferedcount >= self.limit and not self._grouping:
                 self.commit()
 
     def update_document(self, **fields):
